@@ -111,6 +111,32 @@ def maxScale : List Nat → Nat
   | [] => 0
   | x :: xs => max x (maxScale xs)
 
+/-- §18.2.4.1 read as an evaluator: the value of a SELECT / HAVING / ORDER BY expression on a group.
+    Aggregates are computed over the group's solutions; a variable outside an aggregate is SAMPLEd from the
+    group, except the aliases `keep` of SELECT expressions, which are read from the row `g` being built. -/
+def evalG (keep : List Nat) (rows : List Row) (g : Row) : Expr → Val
+  | .var v => if keep.contains v then g.get v else aggValue ⟨.sample, false, false, .var v, none, 0⟩ rows
+  | .const t => some t
+  | .add a b => arith true (evalG keep rows g a) (evalG keep rows g b)
+  | .sub a b => arith false (evalG keep rows g a) (evalG keep rows g b)
+  | .cmp op a b => cmpE op (evalG keep rows g a) (evalG keep rows g b)
+  | .agg k d s arg sep => aggValue ⟨k, d, s, arg, sep, 0⟩ rows
+
+/-- two lists of the same length, related position by position -/
+inductive Forall2 {α β : Type} (R : α → β → Prop) : List α → List β → Prop
+  | nil : Forall2 R [] []
+  | cons {a : α} {b : β} {as : List α} {bs : List β} : R a b → Forall2 R as bs → Forall2 R (a :: as) (b :: bs)
+
+/-- a SELECT item and its rewritten form agree on a group: same name, and the rewritten expression
+    evaluates on the group's row `g` to what the original expression means on the group -/
+def ProjAgrees (rows : List Row) (g : Row) : Proj → Proj → Prop
+  | .var v, .var v' => v = v'
+  | .expr v e, .expr v' e' => v = v' ∧ evalE e' g = evalG [v] rows g e
+  | _, _ => False
+
+def KeyAgrees (keep : List Nat) (rows : List Row) (g : Row) (k k' : Expr × Bool) : Prop :=
+  k.2 = k'.2 ∧ evalE k'.1 g = evalG keep rows g k.1
+
 /-- MIN: unbound for no values; else a value of the group that no value of the group precedes in the SPARQL order -/
 def minOk (v : Val) (vals : List Term) : Bool :=
   match v with
